@@ -1278,9 +1278,9 @@ fn gen_case(rng: &mut Rng) -> (String, String) {
                     // known finding: scalar/scalar with an encoded right operand (see known_findings.txt)
                     if sc == "ss" && matches!(tr, Ty::Dict(..) | Ty::Ree(..)) {
                         " kf:ss-encoded-rhs"
-                    } else if (sc == "as" && lc.is_empty() && matches!(tl, Ty::Ree(..))) || (sc == "sa" && rc.is_empty() && matches!(tr, Ty::Ree(..))) {
-                        // known finding: empty (possibly sliced) run-end array against a scalar
-                        " kf:empty-ree-vs-scalar"
+                    } else if (lc.is_empty() && matches!(tl, Ty::Ree(..))) || (rc.is_empty() && matches!(tr, Ty::Ree(..))) {
+                        // fixed findings: zero-row (possibly sliced) run-end array as an operand
+                        " kf:empty-ree"
                     } else {
                         ""
                     }
